@@ -24,7 +24,7 @@ class ChemistryFile(AutoChemistry):
 
         self._gases = gases
         self._filename = filename
-        self._mix_ratios = np.loadtxt(filename).T
+        self._mix_ratios = np.loadtxt(filename, ndmin=2).T
         self.determine_active_inactive()
 
     @property
